@@ -116,6 +116,7 @@ pub struct Tracer {
     pub short_then_err: BTreeMap<(usize, i32), i32>, // (client, fd) -> errno for the next write to that fd
     pub quiesce_timeouts: u64,
     pub held_polls: u64,
+    pub tmpnames: BTreeMap<String, usize>, // random temp-file names in order of first appearance
 }
 
 impl Tracer {
@@ -138,6 +139,7 @@ impl Tracer {
             short_then_err: BTreeMap::new(),
             quiesce_timeouts: 0,
             held_polls: 0,
+            tmpnames: BTreeMap::new(),
         }
     }
 
@@ -350,6 +352,13 @@ impl Tracer {
             }
             let rel = self.relevant(&sys);
             if rel {
+                for p in [&sys.path, &sys.path2].into_iter().flatten() {
+                    if let Some(i) = p.find("/tmp/.tmp") {
+                        let name = p[i + 5..].to_string();
+                        let n = self.tmpnames.len();
+                        self.tmpnames.entry(name).or_insert(n);
+                    }
+                }
                 // a pending "retry fails" for this fd?
                 let cl = &mut self.clients[c];
                 cl.n_rel += 1;
@@ -624,7 +633,14 @@ impl Tracer {
                 let mut v: Vec<(usize, i32, String)> = Vec::new();
                 for &c in &live {
                     for tid in self.clients[c].parked() {
-                        let key = self.clients[c].threads[&tid].cur.as_ref().map(|s| format!("{}|{}|{}", s.name, s.path.clone().unwrap_or_default(), s.path2.clone().unwrap_or_default())).unwrap_or_default();
+                        let norm = |p: &Option<String>| -> String {
+                            let p = p.clone().unwrap_or_default();
+                            match p.find("/tmp/.tmp") {
+                                Some(i) => format!("{}/tmp/.tmp#{:06}", &p[..i], self.tmpnames.get(&p[i + 5..]).cloned().unwrap_or(999_999)),
+                                None => p,
+                            }
+                        };
+                        let key = self.clients[c].threads[&tid].cur.as_ref().map(|s| format!("{}|{}|{}", s.name, norm(&s.path), norm(&s.path2))).unwrap_or_default();
                         v.push((c, tid, key));
                     }
                 }
